@@ -226,6 +226,8 @@ func f10() {
 	targets := []struct{ file, fn, lean string }{
 		{"internal/execute/sm/sm.go", "ExecuteSequences", "executeSequences"},
 		{"internal/execute/sm/sm.go", "runContChecks", "runContChecks"},
+		{"internal/execute/sm/sm.go", "BlockPreChecks", "blockPreChecks"},
+		{"internal/execute/sm/sm.go", "PlanPreChecks", "planPreChecks"},
 		{"internal/execute/sm/sm.go", "BlockEnd", "blockEnd"},
 		{"internal/execute/sm/sm.go", "PlanPostChecks", "planPostChecks"},
 		{"internal/execute/sm/sm.go", "End", "smEnd"},
